@@ -1821,6 +1821,8 @@ class C02(Prop):
         why = c02ref.check(case, impl) or ""
         if "has default arguments followed by the threaded globals" in why or "default argument(s) out and appends the globals" in why:
             return "default-argument-before-threaded-global"
+        if "which hides the struct member" in why:
+            return "threaded-global-named-like-a-member"
         if re.search(r"receives the globals \[.*\]", why):
             m = re.search(r"receives the globals (\[[^\]]*\])", why)
             names = re.findall(r"'(\w+)'", m.group(1)) if m else []
